@@ -75,18 +75,14 @@ pub fn expand_type_support(input: &DeriveInput) -> Result<TokenStream> {
                         member_hash[3],
                     ]) & 0x0FFF_FFFF;
                     syn::parse_str(&member_hash_int.to_string())?
+                } else if let Some(provided_id) = struct_member_attributes.id {
+                    provided_id
                 } else {
                     match r#struct.extensibility {
                         Extensibility::Final | Extensibility::Appendable => {
                             syn::parse_str(&member_index.to_string())
                         }
-                        Extensibility::Mutable => {
-                            if let Some(provided_id) = struct_member_attributes.id {
-                                Ok(provided_id)
-                            } else {
-                                syn::parse_str(&next_auto_id.to_string())
-                            }
-                        }
+                        Extensibility::Mutable => syn::parse_str(&next_auto_id.to_string()),
                     }?
                 };
 
